@@ -63,14 +63,15 @@ def gen_cases(chk):
             p = B.load_const(3, 0x1111) + B.stx('dw', 10, 3, off) + B.callx(len(post) // 8) + post + callee
             cases.append(Case(p, calc=calc, fam='frames:%s' % ('default' if calc is None else calc[0]), budget=200))
     # 6. r10 inside the callee is lower by the caller's frame size: callee returns caller_r10 - r10
-    for calc in (None, (64, []), (8, [(0, 128)]), (300, [(4, 24)])):
+    for calc in (None, (64, []), (8, [(0, 128)]), (300, [(4, 24)]), (511, []), (512, []), (513, []), (520, []), (1000, []), (65535, []), (8, [(0, 4096)])):
         post = B.EXIT
         callee = B.movr(0, 6) + B.alu('sub', 0, src=10) + B.EXIT
         p = B.movr(6, 10) + B.callx(1) + post + callee
         cases.append(Case(p, calc=calc, fam='r10-delta', budget=100))
     # 8. nested calls under a per-function calculator: the frame size of a NON-entry function (keyed by its entry pc) decides
     #    where its callee's frame lies -- r10 delta over two levels, and slot aliasing between level 1 and level 2
-    for calc in ((16, [(0, 32), (3, 96)]), (48, [(3, 16)]), (256, [(3, 64), (0, 16)]), (16, [(2, 96), (4, 96)]), None):
+    for calc in ((16, [(0, 32), (3, 96)]), (48, [(3, 16)]), (256, [(3, 64), (0, 16)]), (16, [(2, 96), (4, 96)]), None,
+                 (16, [(0, 1000), (3, 16)]), (16, [(0, 16), (3, 600)]), (513, [])):
         f2 = B.movr(0, 6) + B.alu('sub', 0, src=10) + B.EXIT
         p = B.movr(6, 10) + B.callx(1) + B.EXIT + B.callx(1) + B.EXIT + f2        # f1 at pc 3, f2 at pc 5
         cases.append(Case(p, calc=calc, fam='r10-delta-nested', budget=100))
